@@ -64,9 +64,8 @@ structure Dec where
 
 /-- an optional sign in front of a numeric literal -/
 def splitSign : Text → Bool × Text
-  | '-' :: r => (true, r)
-  | '+' :: r => (false, r)
-  | r => (false, r)
+  | [] => (false, [])
+  | c :: r => if c = '-' then (true, r) else if c = '+' then (false, r) else (false, c :: r)
 
 def allDigits (s : Text) : Bool := s.all Char.isDigit
 
